@@ -13,17 +13,23 @@ DigitVal(c) == IF c <= 57 THEN c - 48 ELSE IF c <= 70 THEN c - 55 ELSE c - 87
 (* Ref: decoder.  st = "eod" | "noeod" (input ends without '>') | "bad"       *)
 (* (illegal character); data = the bytes decoded up to that point; a pending  *)
 (* odd digit is only completed by EOD.                                        *)
-RECURSIVE RefDec(_, _, _, _)
-RefDec(s, i, hi, acc) ==     \* hi = 16 when no digit is pending, else the pending digit's value
-  IF i > Len(s) THEN [st |-> "noeod", data |-> acc]
-  ELSE LET c == s[i] IN
-    IF c \in WhiteSpace THEN RefDec(s, i + 1, hi, acc)
-    ELSE IF c = EOD THEN [st |-> "eod", data |-> IF hi < 16 THEN Append(acc, hi * 16) ELSE acc]
+\* one character: q = [st, i, hi, acc]; hi = 16 when no digit is pending,
+\* else the pending digit's value; st = "run" while decoding
+RefStep(s, q) ==
+  IF q.i > Len(s) THEN [q EXCEPT !.st = "noeod"]
+  ELSE LET c == s[q.i] IN
+    IF c \in WhiteSpace THEN [q EXCEPT !.i = @ + 1]
+    ELSE IF c = EOD THEN [q EXCEPT !.st = "eod", !.acc = IF q.hi < 16 THEN Append(@, q.hi * 16) ELSE @]
     ELSE IF IsDigit(c)
-      THEN (IF hi = 16 THEN RefDec(s, i + 1, DigitVal(c), acc)
-            ELSE RefDec(s, i + 1, 16, Append(acc, hi * 16 + DigitVal(c))))
-      ELSE [st |-> "bad", data |-> acc]
-RefDecode(s) == RefDec(s, 1, 16, <<>>)
+      THEN (IF q.hi = 16 THEN [q EXCEPT !.i = @ + 1, !.hi = DigitVal(c)]
+            ELSE [q EXCEPT !.i = @ + 1, !.hi = 16, !.acc = Append(@, q.hi * 16 + DigitVal(c))])
+      ELSE [q EXCEPT !.st = "bad"]
+\* iterate until the state leaves "run" (two levels: shallow evaluation stack in TLC)
+RECURSIVE RefSteps(_, _, _)
+RefSteps(s, q, n) == IF n = 0 \/ q.st # "run" THEN q ELSE RefSteps(s, RefStep(s, q), n - 1)
+RECURSIVE RefLoop(_, _)
+RefLoop(s, q) == IF q.st # "run" THEN q ELSE RefLoop(s, RefSteps(s, q, 64))
+RefDecode(s) == LET q == RefLoop(s, [st |-> "run", i |-> 1, hi |-> 16, acc |-> <<>>]) IN [st |-> q.st, data |-> q.acc]
 RefIsEncodingOf(enc, data) == RefDecode(enc) = [st |-> "eod", data |-> data]
 
 (* Impl: internal/filter/asciihex/write.go -- lower case digits, a line feed  *)
